@@ -144,6 +144,14 @@ def collect(ctx, n_ir, n3):
         ("count", {"typ": "Optional[int]", "doc": "first item to use", "default": -5}),
         ("label", {"typ": "str", "doc": "extra flag", "default": "2"})))}
     work.append((corpus_ir, False, all2 + all3 + [["docstring+", f] for f in FORMATS] + [[g, "docstring+", f] for g in FORMATS for f in FORMATS]))
+    # corpus (stable domain): Optional[bool] with a bool default, a name that is the suffix of its neighbour's name
+    corpus_stable = {"name": "Thing", "doc": "Thing description.", "returns": None, "params": OrderedDict((
+        ("size", {"typ": "int", "doc": "the value", "default": 5}),
+        ("batch_size", {"typ": "int", "doc": "size in bytes", "default": 42}),
+        ("shuffle", {"typ": "Optional[bool]", "doc": "extra flag", "default": True}),
+        ("verbose", {"typ": "Optional[bool]", "doc": "first item to use", "default": False}),
+        ("rate", {"typ": "Optional[float]", "doc": "base directory", "default": 0.5})))}
+    work.append((corpus_stable, True, all2 + all3))
     agg = {"n": 0, "chains": 0, "stable_chains": 0, "outside_model": 0, "compared": 0}
     items, corr = [], []
     for r in run_cases(worker, [[w] for w in work], chunk=1):
